@@ -382,6 +382,27 @@ impl serde::Serialize for AnyClaim {
     }
 }
 
+/// A user-defined claim whose value lives in a shared cell (the caller may change it after set_claim)
+pub struct CellClaim {
+    pub key: String,
+    pub value: std::rc::Rc<std::cell::RefCell<Value>>,
+}
+
+impl PasetoClaim for CellClaim {
+    fn get_key(&self) -> &str {
+        &self.key
+    }
+}
+
+impl serde::Serialize for CellClaim {
+    fn serialize<S: serde::Serializer>(&self, s: S) -> Result<S::Ok, S::Error> {
+        use serde::ser::SerializeMap;
+        let mut m = s.serialize_map(Some(1))?;
+        m.serialize_entry(&self.key, &*self.value.borrow())?;
+        m.end()
+    }
+}
+
 /// How a claim is handed to the library
 #[derive(Clone, Debug, PartialEq)]
 pub enum Via {
@@ -534,7 +555,15 @@ macro_rules! apply_set_claim {
                 $b.set_claim(CustomClaim::try_from((k, v.clone())).unwrap());
             }
             (k, v) => {
-                $b.set_claim(AnyClaim { key: k.to_string(), value: v.clone() });
+                if KEY_ROUTE.with(|c| c.get()) % 2 == 0 {
+                    // a claim whose value the caller changes right after set_claim returned: the token
+                    // carries what was set, not what the claim object says later (C14)
+                    let cell = std::rc::Rc::new(std::cell::RefCell::new(v.clone()));
+                    $b.set_claim(CellClaim { key: k.to_string(), value: cell.clone() });
+                    *cell.borrow_mut() = Value::String("changed after set_claim".into());
+                } else {
+                    $b.set_claim(AnyClaim { key: k.to_string(), value: v.clone() });
+                }
             }
         }
     }};
@@ -938,7 +967,12 @@ pub fn present(
             }
             // a counting validator on a key that is never in the payload: it must not
             // run unless the token authenticated
-            ops.push(POp::ValidateClaim { key: "pv-probe".into(), kind: VKind::Accept });
+            // (registered through either route in turn on the generic parser: with and without an expected claim)
+            if layer == Layer::Generic && KEY_ROUTE.with(|c| c.get()) % 2 == 1 {
+                ops.push(POp::ExtendValidators(vec![("pv-probe".into(), VKind::Accept)]));
+            } else {
+                ops.push(POp::ValidateClaim { key: "pv-probe".into(), kind: VKind::Accept });
+            }
             ops.push(POp::Parse { tok: 0, key: 0 });
             let toks = vec![token.to_string()];
             let kms = vec![km.clone()];
